@@ -63,9 +63,11 @@ CLAIMS = {
          'the working matrix is the input with rows and columns of peeled nodes zeroed and nothing else changed; MAXIMALITY: an arbitrary (Skolem) node set in which every member keeps '
          'degree / in+out degree / strength >= the bound inside the set is never peeled; at exit every node that still has a connection meets the bound; the reported size is the '
          'number of such nodes. Uses two code-independent counting lemmas (degree of a masked matrix = degree restricted to the mask; restricted degree is monotone in the set). '
-         'kcoreness_centrality_bu/_bd, nestedness and the peel-order outputs are bounded only (all graphs n<=5/4, every k, subset-enumeration oracle).',
+         'kcoreness_centrality_bu/_bd are proved modularly against the abstract results KC(CIJ,k), KN(CIJ,k) of the core routine (callee body not re-entered): loop invariant = every node\'s coreness is 0 or a level k '
+         'already visited whose returned core contains the node, and no visited level >= 1 above it does; at exit coreness = the largest k < N whose core contains the node, kn[k] = the reported core size. '
+         'The peel-order outputs are bounded only (all graphs n<=5/4, every k, subset-enumeration oracle); in+out degree >= N for kcoreness_centrality_bd is a known finding.',
          PROOF_NOTE + ' Lemmas lemma_masked_degree, lemma_degree_monotone and the callee contracts of degrees_und/degrees_dir/strengths_und are assumed (code-independent statements).',
-         'pyvc + z3 with ghost state and a Skolem set for maximality; bounded subset-enumeration oracle for the coreness routines', '5/C15'),
+         'pyvc + z3 with ghost state and a Skolem set for maximality, modular caller contracts for the coreness routines; bounded subset-enumeration oracle for peel orders', '5/C15'),
  'C02': ('proof',
          'Deductive (pyvc+z3) for modularity_finetune_und and modularity_finetune_dir, whole function bodies, all networks with positive total weight (symmetric for _und), all gamma, all start '
          'partitions with arbitrary labels, all visiting orders: the returned labels are exactly 1..k (np.unique rank contract) and the returned q equals the modularity Q(W, ci, gamma) of the '
@@ -131,6 +133,14 @@ CLAIMS['C03'] = ('exploration', 'Partly deductive: distance_bin is proved for AL
 for _pid in ['C08', 'C16', 'C18', 'C19', 'C20']:
     CLAIMS[_pid] = ('exploration', BND + 'See DESIGN.md section 5/%s for the clauses and why the deductive tier does not (yet) reach them.' % _pid,
                     BND_NOTE % _pid, 'runtime contracts on the real code over exhaustive small scopes (bounded stand-in)', '5/' + _pid)
+CLAIMS['C18'] = ('exploration',
+                 'Partly deductive: 15 Lean theorems over the extracted real source (all n, all real matrices). pagerank_centrality (falff=None and falff given): the matrix and right-hand side handed to scipy.linalg.solve are '
+                 'I - d A D^-1 and (1-d) f with D the column sums (zeros replaced by one); the returned vector sums to one; under the contract of that one solve call (M r0 = b), no zero column sum and d != 1 the returned r '
+                 'satisfies r = d A D^-1 r + (1-d) f. diffusion_efficiency: the matrix is 1/mfpt off the diagonal and 0 on it, the scalar is its mean over ordered pairs (mfpt abstract). subgraph_centrality = diag(expm(CIJ)) '
+                 '(expm abstract). eigenvector_centrality_und = |column argmax(vals) of vecs|, which under the eigen-contract of that call is |v| >= 0 for an eigenvector of a largest eigenvalue. BOUNDED only: the defining '
+                 'equation of mean_first_passage_time, PageRank positivity / dangling nodes, unit norm and basis independence for repeated eigenvalues, findwalks = matrix powers, all LAPACK results (residuals on connected '
+                 'graphs n<=5, cycles, complete bipartite, regular, disjoint copies; d grid). Level is exploration because the numerical kernels and two of the six routines are bounded.',
+                 BND_NOTE % 'C18' + LX, 'Lean proofs over the mechanically extracted source for the algebra around the LAPACK calls; residual checks on exhaustive small scopes (bounded) for the rest', '5/C18')
 NOT_YET = 'check not built yet in this round (see DESIGN.md section 10); no claim is made'
 
 def main():
@@ -164,9 +174,9 @@ def main():
             'add_only': True,
         },
         'engines': [
-            {'name': 'pyvc', 'path': 'engine/pyvc', 'serves_properties': ['C01', 'C02', 'C06', 'C07', 'C11', 'C12', 'C15', 'C17'], 'kind_free_text': 'AST -> verification conditions -> z3/cvc5 over the real source, sidecar contracts (deductive, unbounded)'},
+            {'name': 'pyvc', 'path': 'engine/pyvc', 'serves_properties': ['C01', 'C02', 'C03', 'C06', 'C07', 'C11', 'C12', 'C15', 'C16', 'C17'], 'kind_free_text': 'AST -> verification conditions -> z3/cvc5 over the real source, sidecar contracts (deductive, unbounded)'},
             {'name': 'pyframe', 'path': 'engine/pyframe', 'serves_properties': ['C05', 'C13'], 'kind_free_text': 'static frame (mutation/alias) and effect (RNG) obligations over the real AST'},
-            {'name': 'lean', 'path': 'engine/lean', 'serves_properties': ['C01', 'C02', 'C04', 'C06', 'C07', 'C09', 'C10', 'C11', 'C14', 'C15'], 'kind_free_text': 'Lean 4 + Mathlib lemma library for finite sums/modularity identities'},
+            {'name': 'lean', 'path': 'engine/lean', 'serves_properties': ['C01', 'C02', 'C03', 'C04', 'C06', 'C07', 'C09', 'C10', 'C11', 'C14', 'C15', 'C18'], 'kind_free_text': 'Lean 4 + Mathlib: lemma library justifying every SMT axiom (VerifLemmas.lean) and numpy->Lean extraction of the real source with stored proofs (extract.py, ExtractedProofs.lean)'},
             {'name': 'weave', 'path': 'engine/weave.py', 'serves_properties': sorted(CLAIMS), 'kind_free_text': 'bounded stand-in: the same contracts executed on the real functions over exhaustive small scopes with a scripted RandomState'},
         ],
         'checks': checks,
